@@ -21,9 +21,11 @@ type Builder struct {
 	// InlineOK says which static callees are to be represented as OInline nodes
 	// (expanded later by ExpandInline).
 	InlineOK func(*ssa.Function) bool
-	memo     map[ssa.Value]*Term
-	allocN   map[ssa.Value]int
-	busy     map[ssa.Value]bool
+	// Bind gives values (calls expanded in place by the path enumerator) their term.
+	Bind   map[ssa.Value]*Term
+	memo   map[ssa.Value]*Term
+	allocN map[ssa.Value]int
+	busy   map[ssa.Value]bool
 }
 
 func NewBuilder(fn *ssa.Function) *Builder {
@@ -74,6 +76,11 @@ func fieldVar(x *ssa.FieldAddr) *types.Var {
 
 // Term returns the canonical term of an SSA value.
 func (b *Builder) Term(v ssa.Value) *Term {
+	if b.Bind != nil {
+		if t, ok := b.Bind[v]; ok {
+			return t
+		}
+	}
 	if t, ok := b.memo[v]; ok {
 		return t
 	}
